@@ -133,6 +133,31 @@ _uniq = [0]
 
 def tlc(module, cfg, workers=None, env=None, timeout=1100, simulate=None, depth=None, extra=(), xmx='6g', seedv=None, deadlock=False, coverage=False, cont=False):
     """Run TLC on spec/<module>.tla with spec/<cfg>. Returns a Tlc result."""
+    # validation runs are pure functions of (specification files, config, input file): memoise them, so that
+    # checks that share a pipeline (C11/C12, ...) do not pay twice on the same tree
+    ckey = None
+    if env and 'TRACE' in env and 'OUT' not in env and not simulate and os.path.exists(str(env['TRACE'])):
+        h = hashlib.sha256()
+        for p in sorted(glob.glob(os.path.join(SPEC, '*.tla'))):
+            with open(p, 'rb') as f:
+                h.update(f.read())
+        cfgp = cfg if os.path.isabs(cfg) else os.path.join(SPEC, cfg)
+        with open(cfgp, 'rb') as f:
+            h.update(f.read())
+        with open(str(env['TRACE']), 'rb') as f:
+            for blk in iter(lambda: f.read(1 << 20), b''):
+                h.update(blk)
+        h.update(module.encode())
+        ckey = os.path.join(ensure(os.path.join(WORK, 'cache')), h.hexdigest()[:32] + '.json')
+        if os.path.exists(ckey):
+            try:
+                d = json.load(open(ckey))
+                r = Tlc()
+                r.__dict__.update(d)
+                r.cached = True
+                return r
+            except ValueError:
+                pass
     _uniq[0] += 1
     meta = ensure(os.path.join(WORK, 'tlc', '%d-%d-%s' % (os.getpid(), _uniq[0], module)))
     cmd = ['java', '-XX:+UseParallelGC', '-Xmx' + xmx, '-Xss16m',
@@ -190,6 +215,12 @@ def tlc(module, cfg, workers=None, env=None, timeout=1100, simulate=None, depth=
             acc = None
     if r.rc not in (0, 12, 13) or 'Parsing or semantic analysis failed' in r.out or 'TLC threw an unexpected exception' in r.out or 'Error: ' in r.out and not r.violations and r.rc != 0:
         r.errors.append('tlc rc=%s' % r.rc)
+    if ckey and not r.errors and r.rc == 0:
+        d = dict(r.__dict__)
+        d['out'] = d['out'][-4000:]
+        with open(ckey + '.tmp%d' % os.getpid(), 'w') as f:
+            json.dump(d, f)
+        os.replace(ckey + '.tmp%d' % os.getpid(), ckey)
     return r
 
 def parse_tla(s):
